@@ -1,5 +1,5 @@
 ----------------------------- MODULE ChainImpl -----------------------------
-(* Extension "chain", Layer I for rest/chain/chain.go: chains as Go slices (backing array,
+(* Extension "restchain", Layer I for rest/chain/chain.go: chains as Go slices (backing array,
    length, capacity), run in lock-step with the abstract Chain.tla.
 
      New      append(([]Middleware)(nil), ms...)     a private array
@@ -18,7 +18,8 @@
              "forward"  Then applies the constructors first-to-last (m_n outermost)       *)
 EXTENDS Chain, Json
 
-CONSTANTS Tags, Terms, MaxArg, MaxLen, MaxChains, MaxHands, MaxOps, MaxReqs, Variant, Emit
+CONSTANTS Tags, Terms, MaxArg, MaxLen, MaxChains, MaxHands, MaxOps, MaxReqs, Variant,
+          Emit, EmitFrom      \* generation: print the history of every state reached by >= EmitFrom operations
 
 VARIABLES
   arrs,    \* backing arrays: arrs[a] is a sequence of length cap; unused slots hold "_"
@@ -115,21 +116,20 @@ IThen(c, t) ==
   /\ UNCHANGED <<arrs, cs, args>>
   /\ hist' = Append(hist, [op |-> "then", c |-> c, t |-> t])
 
-\* requests (only when MaxReqs > 0): the abstract walk over the handler's pipeline
-IReq ==
-  /\ MaxReqs > 0
-  /\ \/ \E q \in 1..MaxReqs, h \in DOMAIN hands, blk \in Tags \cup {""} : CBegin(q, h, blk)
-     \/ \E q \in Live : CEnter(q) \/ CLeave(q) \/ CEnd(q)
-  /\ UNCHANGED <<ivars, hist>>
+\* one named disjunct per API entry point (TLC's coverage then shows that none is dead)
+Budget == Len(hist) < MaxOps
+DoNew      == Budget /\ \E ms \in ArgLists : INew(ms)
+DoAppend   == Budget /\ \E c \in DOMAIN chains, ms \in ArgLists : IAppend(c, ms)
+DoPrepend  == Budget /\ \E c \in DOMAIN chains, ms \in ArgLists : IPrepend(c, ms)
+DoScribble == Budget /\ \E k \in DOMAIN args, j \in 1..MaxArg, t \in Tags : IScribble(k, j, t)
+DoThen     == Budget /\ \E c \in DOMAIN chains, t \in Terms \cup {"mux"} : IThen(c, t)
+DoBegin    == MaxReqs > 0 /\ UNCHANGED <<ivars, hist>>
+              /\ \E q \in 1..MaxReqs, h \in DOMAIN hands, blk \in Tags \cup {""} : CBegin(q, h, blk)
+DoEnter    == UNCHANGED <<ivars, hist>> /\ \E q \in Live : CEnter(q)
+DoLeave    == UNCHANGED <<ivars, hist>> /\ \E q \in Live : CLeave(q)
+DoEnd      == UNCHANGED <<ivars, hist>> /\ \E q \in Live : CEnd(q)
 
-INext ==
-  \/ /\ Len(hist) < MaxOps
-     /\ \/ \E ms \in ArgLists : INew(ms)
-        \/ \E c \in DOMAIN chains, ms \in ArgLists : IAppend(c, ms)
-        \/ \E c \in DOMAIN chains, ms \in ArgLists : IPrepend(c, ms)
-        \/ \E k \in DOMAIN args, j \in 1..MaxArg, t \in Tags : IScribble(k, j, t)
-        \/ \E c \in DOMAIN chains, t \in Terms \cup {"mux"} : IThen(c, t)
-  \/ IReq
+INext == DoNew \/ DoAppend \/ DoPrepend \/ DoScribble \/ DoThen \/ DoBegin \/ DoEnter \/ DoLeave \/ DoEnd
 
 ISpec == IInit /\ [][INext]_vars
 
@@ -144,5 +144,8 @@ ImmutableP == Immutable
 
 \* ---- test generation -----------------------------------------------------------------
 View == <<chains, hands, wraps, reqs, arrs, cs, args, ih, iwraps>>     \* everything but hist
-PrintHist == (Emit /\ Len(hist) > 0) => PrintT("TRACE " \o ToJson(hist))
+PrintHist == (Emit /\ Len(hist) >= EmitFrom) => PrintT("TRACE " \o ToJson(hist))
+\* with a wrong Variant: the histories on which that variant goes wrong (they are replayed on the real
+\* code, which must not)
+PrintBad == (Emit /\ ~Refines) => PrintT("TRACE " \o ToJson(hist))
 =============================================================================
